@@ -25,7 +25,7 @@ Definition first_minted : N := 200.
 Definition thread_of (kj : nat) (k : kind) : thread :=
   match k with
   | KSession => TSession the_bid 0 0
-  | KDeny => TDeny the_bid 0
+  | KDeny => TDeny the_bid 600 0
   | KAllow => TAllow the_bid 0
   | KLeave => TLeave kj 0
   | KPre => TLeave kj 1          (* passive: the pre-joined connection just stays; a finished placeholder thread *)
@@ -43,7 +43,7 @@ Definition init_of (ks : list kind) : sys :=
   let s0 := init (map (thread_of kj) ks ++ (if pre then [TWs 101 3 (Some the_bid)] else []))
                  (if has_kind KWs ks then [(pre_code, the_bid)] else []) first_minted in
   if pre
-  then mksys (deny s0) (allow s0) (codes s0) (nextc s0) [(kj, the_bid)] [] [(kj, the_bid)] [] [] (threads s0)
+  then mksys (deny s0) (allow s0) (codes s0) (nextc s0) [(kj, the_bid)] [] [(kj, the_bid)] [] [] (threads s0) (dexp s0)
   else s0.
 
 (* strict run: every scheduled step must be enabled *)
